@@ -186,8 +186,13 @@ Definition misplaced (c : cmp_attrs) : bool :=
 (** ** Eq obligations (C17): one `T: Eq` obligation per compared component *)
 Inductive eq_component := EqField (f : fld) | EqKey (f : fld) (k : toks).
 
+(** what takes part in equality: when the field is customised for `Eq` (`#[eq]` / `#[ord]` with `key` / `by`),
+    the selection of `==` - the most specific of `partial_eq`, `eq`, `partial_ord`, `ord` *)
+Definition eq_selected (c : cmp_attrs) : selection :=
+  match selected CEq c with SOwn => SOwn | _ => selected CPartialEq c end.
+
 Definition eq_components (fs : list fentry) : list eq_component :=
-  flat_map (fun f => match selected CEq (ha_cmp (fe_hattrs f)) with
+  flat_map (fun f => match eq_selected (ha_cmp (fe_hattrs f)) with
                      | SBy _ _ => []                          (* compared with `by`: exempt *)
                      | SKey k => [EqKey (fld_of f) k]        (* the value of the key expression *)
                      | SOwn => [EqField (fld_of f)]          (* the field itself *)
